@@ -26,6 +26,19 @@ CHECKS["C14"] = dict(
   note="Universe is prefix-free (documented orphan-directory behaviour of the disk bucket is outside the quantifier); ObjectInfo.Path() is compared up to normalisation.",
   design="3/C14")
 
+CHECKS["C09"] = dict(
+  level="fault_enumeration", engine="sched",
+  technique="exhaustive crash-point, fault-position, tampering enumeration plus delay-bounded exhaustive schedule exploration of store/load processes under a controlled scheduler",
+  text="The real module data store (dir and tar layouts) on a real directory: (1) the directory is snapshotted at every storage step and disk hook point of a store and every snapshot is recovered from (load in all accessor orders, store again, load), plus real SIGKILLs of a subprocess at every hook point; (2) every single (thorough: pair of) failing put/close/disk write/short write/rename/lock operation; (3) store/load 'processes' with separate store objects sharing the directory and a reader-writer lock table run as threads of a cooperative scheduler: every schedule with at most 3 (thorough 4) deviations from the default schedule, also starting from a crashed directory and with an injected write failure as an environment choice, oracle at every load and on the quiescent state; (4) every single-file tampering of a complete entry incl. every byte of module.yaml. Oracle: a load is a miss, exactly the pinned content (files, dependency digests, v1 side files), or an error - never other content; failed/interrupted stores are repaired by a later store; an acknowledged store leaves a loadable entry.",
+  note="Crash = process death (directory content at that instant; no fsync/power-loss model). Processes are goroutines with separate objects; scheduling points are bucket-level operations and lock operations (writes into private temp files are invisible and not points); delay bounding rather than full preemption bounding; the real flock locker is checked separately for the RW semantics the lock table assumes.",
+  design="3/C09")
+CHECKS["C19"] = dict(
+  level="model_checking", engine="enum",
+  technique="every sentence of a reference grammar model (BUF_TOKEN strings, netrc entry sequences, request hosts) up to a length bound replayed on the real token providers, interceptor chain and CLI",
+  text="All BUF_TOKEN strings up to length 7 (thorough 9) over {t,u,h,:,@,','} and over a host-symbol alphabet, all netrc entry sequences of <=4 entries in 3 layouts, all request hosts from a derived menu are evaluated by a reference model (recogniser + generator cross-checked) and replayed on NewTokenProviderFromContainer/String, the netrc provider, the authorization interceptor through connectclient.Make with a recording in-process HTTP client, and `buf registry whoami` against loopback registries. Oracle: header present iff the model configures that host, with that token; never a token of another host; malformed strings rejected as a whole; env beats netrc; first duplicate wins.",
+  note="Host comparison is exact-string; alphabet has no whitespace/non-ASCII; TLS off in the CLI phase; two cases the documentation leaves open (':' in an entry token, duplicated host) accept either behaviour.",
+  design="3/C19")
+
 NOT_YET = {}
 
 def main():
